@@ -139,19 +139,26 @@ func vH_C02_step() {
 
 // ------------------------------------------------------------------ C11
 
+// vCountItemWrites counts the item records that were written, however many
+// WriteAt calls each took: a write that starts a record which is neither a
+// root record nor a 52-byte node record is an item header; the writes that
+// fall inside the record it announces (its own total-length field) belong to it.
 func vCountItemWrites(f *vFile) int {
 	n := 0
+	var covered int64 = -1
 	for i := 0; i < len(f.writes); i++ {
 		w := f.writes[i]
+		if w.off < covered {
+			continue // continuation of the item record in progress
+		}
 		if vHasStr(f.data, w.off, vMagicBeg+vMagicBeg) {
 			continue // root record
 		}
 		if w.n == 52 {
-			continue // node record (item headers are 16+klen <= 18 bytes here)
+			continue // node record (item records here are at most 16+2+2 bytes)
 		}
-		// item header write, followed by its value write
 		n++
-		i++
+		covered = w.off + int64(vbe(f.data, w.off, 4))
 	}
 	return n
 }
